@@ -424,8 +424,10 @@ static void structure(report& r)
         }
         if (r.want(base + " multi_channel" + cfg))
         {
+            // normalised these are sevenths / thirds: not representable exactly in any binary type, so a reader that
+            // goes through a narrower type is visible
             std::vector<T> w(s.chan);
-            for (sz i = 0; i != s.chan; ++i) w[i] = (i == 1) ? T(0) : T(1) / T(3 + i);
+            for (sz i = 0; i != s.chan; ++i) w[i] = (i == 1 && s.chan > 2) ? T(0) : T(3 + i);
             auto chk = hep::make_multi_channel_chkpt<T, E>(w, T(1) / T(100), T(1) / T(3), gen);
             for (sz k = 0; k != s.nres; ++k)
             {
